@@ -12,7 +12,7 @@ func init() {
 		id: "C02",
 		pkgs: []string{"cue/parser", "cue/scanner", "internal/core/adt", "internal/core/compile", "internal/core/export", "internal/core/toposort",
 			"internal/core/walk", "internal/core/dep", "internal/core/subsume", "cue/errors", "cue", "cue/format", "internal/pretty",
-			"internal/encoding/json", "internal/encoding/yaml", "pkg/list", "pkg/struct"},
+			"internal/encoding/json", "internal/encoding/yaml", "pkg/list", "pkg/struct", "internal/pkg"},
 		run: checkC02,
 		about: "C02 (parse/compile/evaluate/export never crash and are repeatable): decides (a) the parser's bailout discipline and (b) that parser recursion and iterative tree deepening are bounded by the nesting guard (shared with C09); " +
 			"(c) every type-switch dispatcher over an internal/core/adt interface whose default panics covers every implementor of that interface, or the implementor is excepted with the reason it cannot reach the switch (a new node kind that misses a dispatcher is a crash for the first program that uses it); " +
@@ -31,6 +31,7 @@ func checkC02(c *Ctx) {
 	c02Pairing(c)
 	c02Determinism(c)
 	c02SliceBounds(c)
+	c02BuiltinErrors(c)
 	for _, p := range []string{"internal/core/adt", "internal/core/compile", "cue/parser"} {
 		c.checkCounterBalance("frames.counter-balanced", p, nil)
 	}
